@@ -170,6 +170,43 @@ fn limit_scenario(c: &mut Ctx) {
             }
         }
     }
+    // a replica holding exactly the limit keeps merging what it already holds (duplication at the cap), and a replica
+    // holding part of it can take the rest
+    {
+        let ops = mint(1024);
+        let mut a = base.clone();
+        for op in &ops {
+            let _ = a.add_op(op.clone());
+        }
+        let k = *[1usize, 2, 500, 1023, 1024].choose(&mut c.cx.rng).expect("nonempty");
+        let mut sub = base.clone();
+        for op in ops.choose_multiple(&mut c.cx.rng, k) {
+            let _ = sub.add_op(op.clone());
+        }
+        if a.ops().len() == 1024 && sub.ops().len() == k {
+            for verified in [false, true] {
+                c.cx.eval();
+                c.cx.count("limit:merges-into-a-full-replica");
+                let (mut aa, copy) = (a.clone(), a.clone());
+                let r0 = if verified { aa.verified_merge(&copy) } else { aa.merge(&copy) };
+                if r0.is_err() || aa.ops() != a.ops() {
+                    c.cx.violation("merge-not-idempotent", format!("a replica of exactly 1024 ops merged with a copy of itself: {r0:?}"), json!({"verified": verified, "at_the_limit": true}));
+                }
+                let mut aa = a.clone();
+                let r1 = if verified { aa.verified_merge(&sub) } else { aa.merge(&sub) };
+                if r1.is_err() || aa.ops() != a.ops() {
+                    c.cx.violation("merge-of-held-operations-refused-at-the-limit", format!("a replica of exactly 1024 ops was given {k} of its own operations again: {r1:?}, {} ops afterwards", aa.ops().len()), json!({"verified": verified}));
+                }
+                let mut ss = sub.clone();
+                let r2 = if verified { ss.verified_merge(&a) } else { ss.merge(&a) };
+                if r2.is_err() || ss.ops() != a.ops() {
+                    c.cx.violation("merge-within-entry-limit-refused", format!("a replica holding {k} of 1024 operations merged with the replica holding all of them: {r2:?}, {} ops afterwards", ss.ops().len()), json!({"verified": verified}));
+                } else {
+                    c.closure(&ss, "merge up to exactly the limit");
+                }
+            }
+        }
+    }
     // overlapping replicas whose sizes sum to more than the limit while their union stays below it
     {
         let ops = mint(900);
